@@ -270,10 +270,10 @@ class Git:
                 folder.as_posix(),
             ]
 
-        args += ["ls-files", "--others", "-i", "--exclude-standard"]
+        args += ["ls-files", "--others", "-i", "--exclude-standard", "-z"]
         output = self.run(*args)
 
-        return output.strip().split("\n")
+        return output.strip("\0").split("\0")
 
     def run(self, *args: Any, **kwargs: Any) -> str:
         folder = kwargs.pop("folder", None)
